@@ -499,11 +499,6 @@ PUBLIC = {
     'add_static_view': ('add', {}),
 }
 
-# directives that are not wrapped by @action_method (or whose wrapper sits one frame too deep): their
-# introspectables carry an ActionInfo that does not name the calling statement  -> finding F-C20d
-NO_CALLSITE_INFO = ('add_permission', 'add_cache_buster', 'add_tween')
-
-
 def spec_crosscheck(lean_spec):
     """the python table above against the Lean table (shape kinds, parameters, expression texts, key sets,
     categories).  -> list of differences (strings)"""
@@ -511,6 +506,17 @@ def spec_crosscheck(lean_spec):
     by_name = {s['name']: s for s in lean_spec}
     if set(by_name) != set(PY_SPEC):
         diffs.append('directive sets differ: %s' % sorted(set(by_name) ^ set(PY_SPEC)))
+    # every family the harness calls reaches its slice through a specified public entry
+    for fam in FAMILIES:
+        slice_name = PUBLIC.get(fam, (fam, {}))[0]
+        ents = [e.split('.', 1)[1] for e in by_name.get(slice_name, {}).get('entries', [])]
+        if fam not in ents:
+            diffs.append('family %s is not a specified public entry of %s (%s)' % (fam, slice_name, ents))
+    called = {PUBLIC.get(f, (f, {}))[0] for f in FAMILIES} | {'set_authorization_policy'}
+    for name, s in by_name.items():
+        for e in s.get('entries', []):
+            if e.split('.', 1)[1] not in FAMILIES and e.split('.', 1)[1] != 'set_authorization_policy':
+                diffs.append('public entry %s of %s is not exercised by the harness' % (e, name))
     for name, s in by_name.items():
         py = PY_SPEC.get(name)
         if py is None:
@@ -1062,7 +1068,7 @@ def _winner_map(real):
 
 def _tagged(i):
     f = getattr(i.action_info, 'file', None)
-    if isinstance(f, str) and f.startswith('<c20-stmt-') and f.endswith('>'):
+    if isinstance(f, str) and f.startswith('<c20-stmt-') and f.endswith('>') and getattr(i.action_info, 'line', None) == 1:
         return int(f[len('<c20-stmt-'):-1])
     return None
 
@@ -1136,14 +1142,15 @@ def oracle_cfg(case, real):
         for exp in exp_list:
             cat_doc, cat_src = exp['doc'], exp['src']
             cands = [i for i in owned if i.category_name in (cat_doc, cat_src)]
-            if d in NO_CALLSITE_INFO or (slice_name == 'add_cache_buster'):
-                # find by slot instead (the action info cannot be used, see below)
-                got = I.get(cat_src, exp['discr']) if 'discr' in exp else None
-                cands = [got] if got is not None and id(got) not in base_objs else []
-                if cands and _tagged(cands[0]) != sid:
-                    ai = cands[0].action_info
+            if not cands and 'discr' in exp:
+                # the slot is filled but the entry is not attributed to the statement: its action_info names
+                # something else (every statement is compiled under its own file name, line 1)
+                got = I.get(cat_src, exp['discr'])
+                if got is not None and id(got) not in base_objs and _tagged(got) is None and _owner_untagged(got, real) == sid:
+                    ai = got.action_info
                     out.append(('%s: the entry (%s, %r) has action_info file=%r line=%r function=%r, which does not point at the statement'
-                                % (where, cat_src, exp.get('discr'), ai.file, ai.line, ai.function), 'F-C20d'))
+                                % (where, cat_src, exp.get('discr'), getattr(ai, 'file', None), getattr(ai, 'line', None), getattr(ai, 'function', None)), None))
+                    cands = [got]
             if 'discr' in exp:
                 cands = [i for i in cands if i.discriminator == exp['discr']]
             if exp.get('multi'):
